@@ -32,6 +32,7 @@ def residual_nnls(matrix: ArrayLike, data: ArrayLike) -> tuple[ArrayLike, ArrayL
     # (the solution is invariant under positive scaling of the data and of the columns).
     column_scales = np.abs(matrix).max(axis=0)
     column_scales[column_scales == 0] = 1
+    data = np.asarray(data, dtype=np.float64)
     data_scale = np.abs(data).max() or 1.0
     clp, _ = nnls(matrix / column_scales, data / data_scale)
     clp = clp / column_scales * data_scale
